@@ -148,6 +148,7 @@ def generate(rng, opts):
         cfg["extra_shapes"] = [s for s in cfg["extra_shapes"] if s != "conflict"]
         cfg["_memo"] = {}
     cfg["top_conflict"] = rng.random() < 0.3
+    cfg["stubs_pkg"] = rng.random() < 0.15
     n_sp = rng.choice([1, 2, 2, 3])
     dirs = []
     tops = rng.sample(TOP_NAMES, rng.choice([1, 1, 2]))
@@ -169,6 +170,13 @@ def generate(rng, opts):
                     files[f"{top}.py"] = _body("py", f"sp{sp}/{top}.py")
         if rng.random() < cfg["p_noise"]:
             files["README.txt"] = "top\n"
+        if cfg["stubs_pkg"] and rng.random() < 0.6:
+            # a separate <top>-stubs package (PEP 561), used when the package is loaded with find_stubs_package=True
+            for top in tops:
+                if rng.random() < 0.7 and f"{top}/__init__.py" in files:
+                    files[f"{top}-stubs/__init__.pyi"] = _body("pyi", f"sp{sp}/{top}-stubs/__init__.pyi")
+                    for child in rng.sample(SUB_NAMES, rng.choice([0, 1, 2])):
+                        files[f"{top}-stubs/{child}.pyi"] = _body("pyi", f"sp{sp}/{top}-stubs/{child}.pyi")
         dirs.append(files)
     n_listed = n_sp
     if rng.random() < 0.2 and n_sp >= 2:
@@ -490,6 +498,7 @@ def execute(plan, ctx):
                             search_paths=sps,
                             allow_inspection=plan["inspection"],
                             try_relative_path=form in ("strpath", "relstr"),
+                            find_stubs_package=bool(plan["cfg"].get("stubs_pkg")),
                         )
                         tree = norm_tree(w, top)
                         outcome = "ok"
